@@ -399,6 +399,31 @@ class Scheduler:
                 r = [t for t in self._runnable() if t != me]
                 if r:
                     target = r[tgt % len(r)]
+        elif k == 'preempt2':
+            # directed pair: the FIRST thread is pre-empted at its k1-th lock/file-system operation; the thread
+            # that takes over is pre-empted at its j-th source line executed while it holds NO lock (the places
+            # where a check-then-act on shared state can be interleaved); the first thread then carries on
+            is_ops = isinstance(tag[0], str) and (tag[0] == 'fs' or tag[0].startswith('lock.'))
+            ph = self.__dict__.setdefault('p2_phase', 0)
+            if ph == 0 and is_ops and me == self._pick_initial():
+                self.p2_ops = self.__dict__.get('p2_ops', 0) + 1
+                if self.p2_ops == self.strategy['k1']:
+                    r = [t for t in self._runnable() if t != me]
+                    if r:
+                        target = r[0]
+                        self.p2_phase = 1
+                        self.p2_thread = target
+                        self.p2_lines = 0
+                        self.p2_trace = []
+            elif ph == 1 and me == self.p2_thread and not is_ops and not self.held.get(me):
+                self.p2_lines += 1
+                if len(self.p2_trace) < 5000:
+                    self.p2_trace.append(tag)
+                if self.p2_lines == self.strategy['j']:
+                    self.p2_phase = 2
+                    first = self._pick_initial()
+                    if first in self._runnable():
+                        target = first
         elif k == 'random':
             if self.rng.random() < self.strategy.get('p', 0.02):
                 r = [t for t in self._runnable() if t != me]
